@@ -166,7 +166,10 @@ impl CryptographicSponge for AnySponge {
     fn squeeze_bits(&mut self, _n: usize) -> Vec<bool> {
         Vec::new()
     }
-    fn squeeze_field_elements_with_sizes<F: PrimeField>(&mut self, _: &[FieldElementSize]) -> Vec<F> {
+    fn squeeze_field_elements_with_sizes<F: PrimeField>(
+        &mut self,
+        _: &[FieldElementSize],
+    ) -> Vec<F> {
         Vec::new()
     }
 }
